@@ -197,6 +197,24 @@ def check_lines(r, lines, model):
                     r.oracle_failure(case, res[:300], "derivedx:" + ty + ":panic")
             elif res != "ok":
                 r.oracle_failure(case, res[:400], "derivedx:" + ty + ":" + res.split(":")[0])
+        elif stream == "reg":
+            # n handles alive at once, resolved in the given order: every resolved handle must give back the
+            # value it was created for (first resolution), a second resolution finds nothing
+            r.count(case, True)
+            _, n, order = case.split()
+            n = int(n)
+            order = [] if order == "-" else [int(x) for x in order.split(",")]
+            r.hist["reg_live_handles"][str(min(n, 40) // 10 * 10) + "+"] += 1
+            seen, want = set(), []
+            for i in order:
+                want.append("_" if i in seen else str(i + 1))
+                seen.add(i)
+            if f[1] == "panic" or f[2].split(",") != (want if want else [""]):
+                r.oracle_failure(case, f"values resolved through the handle registry: got [{f[2][:120]}], expected [{','.join(want)[:120]}]", "reg:resolve")
+            if m is not None and (m[0] != f[1] or m[1] != f[2]):
+                r.model_disagreement(case, f[1] + " | " + f[2], m[0] + " | " + m[1])
+            elif m is not None:
+                r.hist["model"]["agree:reg"] += 1
         elif stream == "embed":
             r.count(case, True)
             _, ctx, kind, _seed = case.split()
@@ -341,7 +359,7 @@ def run(r):
         "lazily produced values used as keys of an ordered map and plain objects as deserialisation sources are out of scope",
         "a safe string printed directly under JSON auto-escaping is written verbatim (safe = already escaped by definition)",
     ]
-    r.regen_tables(["TOJSON_REPLACEMENTS", "TOJSON_TRUE_INDENT", "VALUE_SERIALIZE_LENGTHS", "ENUMERATOR_QUERY_LEN", "SERDE_JSON_COMPOUND", "SERIALIZATION_FLAG_GUARD", "JINJA_JSON_SEPARATORS", "VALUE_HANDLE_MARKER", "SERDE_JSON_ESCAPE"])
+    r.regen_tables(["TOJSON_REPLACEMENTS", "TOJSON_TRUE_INDENT", "VALUE_SERIALIZE_LENGTHS", "ENUMERATOR_QUERY_LEN", "SERDE_JSON_COMPOUND", "SERIALIZATION_FLAG_GUARD", "VALUE_HANDLE_REGISTRY", "JINJA_JSON_SEPARATORS", "VALUE_HANDLE_MARKER", "SERDE_JSON_ESCAPE"])
     r.lean_prove("MJ.Props.C16", "MJ/Audit/C16.lean", extra_targets=["drive_c16"])
     exe = r.cargo_build("c16")
     if exe is None:
